@@ -196,3 +196,29 @@ func TestVerifC13_SilentPeer(t *testing.T) {
 		})
 	})
 }
+
+// TestVerifC13_KeepAliveOption: the ping interval is not given; it follows from the keep-alive value requested in Connect
+// (whole seconds). A peer that goes silent must still be detected - these cases take a few seconds each.
+func TestVerifC13_KeepAliveOption(t *testing.T) {
+	vRun(t, "C13", vOpts{CurFile: true, ReplayReps: 1}, func(rt *rapid.T) e4Case {
+		c := e4Case{Cfg: e4Config{SessionKept: true, BaseUs: 500, MaxUs: 1000, KeepAliveS: 1}}
+		c.Cfg.CleanSession = rapid.Bool().Draw(rt, "clean")
+		c.Steps = []e4Step{{Kind: "connect"}, {Kind: "settle"}, {Kind: "pub", QoS: rapid.IntRange(1, 2).Draw(rt, "qos"), Topic: "t/a", Idx: 1}}
+		// silent from the CONNECT on, or right behind the first request
+		if rapid.Bool().Draw(rt, "early") {
+			c.Faults = []e4Fault{{Kind: "goSilent", Conn: 1, Pkt: 1}}
+		} else {
+			c.Faults = []e4Fault{{Kind: "goSilentType", Conn: 1, Type: rtPublish, Nth: 1}}
+			c.Steps = append(c.Steps, e4Step{Kind: "settle"}, e4Step{Kind: "pub", QoS: 1, Topic: "t/b", Idx: 2})
+		}
+		return c
+	}, func(tb rapid.TB, c e4Case) {
+		e4Check(tb, "C13", c, func(r *e4Result) string {
+			msg, _, _ := c13bOracle(r)
+			return msg
+		}, func(r *e4Result) (bool, []string) {
+			_, _, labels := c13bOracle(r)
+			return true, append(labels, "c13:interval-from-keep-alive-option")
+		})
+	})
+}
